@@ -70,6 +70,7 @@ class Interp:
         tree = self.source.module_ast(rel)
         mod = VModule(modname)
         mod.relpath = rel
+        mod.mutated_globals = _mutated_globals(tree)
         self.modules[modname] = mod
         for st in tree.body:
             if isinstance(st, ast.FunctionDef):
@@ -97,6 +98,11 @@ class Interp:
                 mod.globals[name] = self.make_class(st, mod, fr)
             else:
                 self.ex(st, fr)
+                if getattr(self, "arbitrary_global_state", True) and name in getattr(mod, "mutated_globals", ()) \
+                        and isinstance(st, (ast.Assign, ast.AnnAssign)) and name in mod.globals \
+                        and isinstance(mod.globals[name], (VList, VDict, VSet, VObj)):
+                    from .values import AnyValue
+                    mod.globals[name] = AnyValue(name)
             if name in mod.globals:
                 return mod.globals[name]
         raise KeyError(name)
@@ -859,6 +865,49 @@ class Interp:
     def make_exc(self, name, *args):
         from .engine import make_exc
         return make_exc(name, *args)
+
+
+_MUTATORS = {"append", "extend", "insert", "pop", "remove", "clear", "update", "setdefault", "add", "discard",
+             "popitem", "sort", "reverse", "appendleft"}
+
+
+def _mutated_globals(tree):
+    """module-level names that some function of the module mutates (subscript/attribute stores,
+    mutating method calls, `global` rebinding, augmented assignment): their content at call entry
+    depends on the call history"""
+    top = set()
+    for st in tree.body:
+        if isinstance(st, (ast.Assign, ast.AnnAssign)):
+            for t in (st.targets if isinstance(st, ast.Assign) else [st.target]):
+                if isinstance(t, ast.Name):
+                    top.add(t.id)
+    out = set()
+    for fn in ast.walk(tree):
+        if not isinstance(fn, (ast.FunctionDef, ast.AsyncFunctionDef)):
+            continue
+        local = {a.arg for a in fn.args.args + fn.args.kwonlyargs}
+        declared_global = set()
+        for n in ast.walk(fn):
+            if isinstance(n, ast.Global):
+                declared_global.update(n.names)
+        for n in ast.walk(fn):
+            base = None
+            if isinstance(n, (ast.Subscript, ast.Attribute)) and isinstance(n.ctx, (ast.Store, ast.Del)):
+                base = n.value
+            elif isinstance(n, ast.Call) and isinstance(n.func, ast.Attribute) and n.func.attr in _MUTATORS:
+                base = n.func.value
+            elif isinstance(n, ast.AugAssign):
+                base = n.target if isinstance(n.target, ast.Name) else getattr(n.target, "value", None)
+            elif isinstance(n, ast.Name) and isinstance(n.ctx, ast.Store) and n.id in declared_global:
+                out.add(n.id)
+            while isinstance(base, (ast.Subscript, ast.Attribute)):
+                base = base.value
+            if isinstance(base, ast.Name) and base.id in top and (base.id not in local or base.id in declared_global):
+                # a local of the same name shadows the global only if it is assigned in the function
+                assigned = any(isinstance(x, ast.Name) and isinstance(x.ctx, ast.Store) and x.id == base.id for x in ast.walk(fn))
+                if not assigned or base.id in declared_global:
+                    out.add(base.id)
+    return out
 
 
 def _mangle(clsname, attr):
